@@ -282,3 +282,56 @@ Definition prop_c18_b (m : smsg) (out : str) : bool :=
       && attrs_conserved ev (s_attrs m)
   | _ => false
   end.
+
+(* ------------------------------------------------------------------ front end (round 8)
+   How an application obtains the SentryFormatter OBJECT: SimplePipeline::formatToSentry(sdkName, sdkVersion), both
+   parameters with default arguments.  The SentryFormatter constructor has the same two parameters; its defaults are
+   the sdk strings of the translated configuration, so [with_sdk cfg n v] is the behaviour of SentryFormatter(n, v). *)
+Definition with_sdk (cfg : sentry_cfg) (n v : str) : sentry_cfg := {|
+  level_names := level_names cfg; level_default := level_default cfg; routes := routes cfg; skipped := skipped cfg;
+  fp_cut := fp_cut cfg; fp_formatted := fp_formatted cfg; msg_formatted := msg_formatted cfg;
+  logger_unless_empty := logger_unless_empty cfg; logger_unless_default := logger_unless_default cfg;
+  sdk_name := n; sdk_version := v |}.
+(* the arguments the caller writes: (), (n) or (n, v) *)
+Inductive sdk_call := SdkNone | SdkName (n : str) | SdkBoth (n v : str).
+(* SentryFormatter(args) constructed directly: omitted positions take the constructor's defaults *)
+Definition direct_args (cfg : sentry_cfg) (c : sdk_call) : str * str :=
+  match c with SdkNone => (sdk_name cfg, sdk_version cfg) | SdkName n => (n, sdk_version cfg) | SdkBoth n v => (n, v) end.
+Definition direct_cfg (cfg : sentry_cfg) (c : sdk_call) : sentry_cfg := with_sdk cfg (fst (direct_args cfg c)) (snd (direct_args cfg c)).
+(* the front end, as read from simplepipeline.cpp / simplepipeline.h *)
+Inductive front_arg := FAName | FAVersion.      (* which parameter of formatToSentry stands at a constructor-argument position *)
+Inductive front_obj :=
+| FOFresh (args : list front_arg)               (* append(SentryFormatterPtr::create(args...)) *)
+| FOInstance.                                   (* append(SentryFormatter::instance()): the shared default-constructed object *)
+Record sentry_front := {
+  front_object : front_obj;
+  front_default_name : str; front_default_version : str }.   (* default arguments in the declaration of formatToSentry *)
+(* the values of the two parameters inside formatToSentry for a call *)
+Definition front_params (fr : sentry_front) (c : sdk_call) : str * str :=
+  match c with
+  | SdkNone => (front_default_name fr, front_default_version fr)
+  | SdkName n => (n, front_default_version fr)
+  | SdkBoth n v => (n, v)
+  end.
+Definition front_pick (a : front_arg) (p : str * str) : str := match a with FAName => fst p | FAVersion => snd p end.
+(* the constructor arguments (after the constructor's own defaults) of the object formatToSentry(c) appends *)
+Definition front_args (cfg : sentry_cfg) (fr : sentry_front) (c : sdk_call) : str * str :=
+  let p := front_params fr c in
+  match front_object fr with
+  | FOFresh [] => (sdk_name cfg, sdk_version cfg)
+  | FOFresh [a] => (front_pick a p, sdk_version cfg)
+  | FOFresh (a :: b :: _) => (front_pick a p, front_pick b p)
+  | FOInstance => (sdk_name cfg, sdk_version cfg)
+  end.
+Definition front_cfg (cfg : sentry_cfg) (fr : sentry_front) (c : sdk_call) : sentry_cfg :=
+  with_sdk cfg (fst (front_args cfg fr c)) (snd (front_args cfg fr c)).
+(* the event text produced by the formatter object obtained through SimplePipeline().formatToSentry(c) *)
+Definition front_format (cfg : sentry_cfg) (fr : sentry_front) (c : sdk_call) (qtver event_id : str) (m : smsg) : str :=
+  sentry_format (front_cfg cfg fr c) qtver event_id m.
+(* what the translated front end must be: a new object from (sdkName, sdkVersion) in this order, and the declaration's
+   default arguments are the constructor's *)
+Definition front_goodb (cfg : sentry_cfg) (fr : sentry_front) : bool :=
+  match front_object fr with FOFresh [FAName; FAVersion] => true | _ => false end
+  && seqb (front_default_name fr) (sdk_name cfg) && seqb (front_default_version fr) (sdk_version cfg).
+Definition call_unitsb (c : sdk_call) : bool :=
+  match c with SdkNone => true | SdkName n => unitsb n | SdkBoth n v => unitsb n && unitsb v end.
